@@ -46,6 +46,8 @@ type scRebal struct {
 	prop    string
 	closeAt int
 	quiet   bool // C13r: Close() arrives when every earlier notification has run its course
+
+	transientEnds int
 }
 
 func init() {
@@ -283,10 +285,37 @@ func (s *scRebal) MayDrop(w *World, c *Conn) bool  { return false }
 func (s *scRebal) MayStall(w *World, c *Conn) bool { return false }
 
 func (s *scRebal) Actions(w *World) []Action {
+	var acts []Action
 	if w.cfg.W.Persist > 0 {
-		return w.persistActions()
+		acts = w.persistActions()
 	}
-	return nil
+	if s.prop == "C12r" && s.transientEnds < 3 && w.ready1() {
+		// a stream ends with a re-openable status in a session opened by a rebalance (or the first one)
+		w.mu.Lock()
+		for _, st := range w.sortedStreams() {
+			st := st
+			m := w.members[st.conn.member-1]
+			if !st.open || m.closing || m.stopped || m.crashed || !m.ready || m.phase != "open" || m.notifInFlight > 0 {
+				continue
+			}
+			for _, es := range []struct {
+				name   string
+				status int
+			}{{"state-changed", 2}, {"too-slow", 4}} {
+				es := es
+				acts = append(acts, Action{ID: fmt.Sprintf("end|%s|%s", es.name, st.sid), W: 1, Do: func() {
+					s.transientEnds++
+					w.fault("end:"+es.name, st.sid)
+					w.mu.Lock()
+					st.endStat = es.status
+					w.cl.emitEnd(st)
+					w.mu.Unlock()
+				}})
+			}
+		}
+		w.mu.Unlock()
+	}
+	return acts
 }
 
 func (s *scRebal) OnQuiesce(w *World) {
